@@ -195,10 +195,15 @@ def run(ctx: core.Ctx):
         for dt in ("float64", "float32", "int16"):
             rr = r.astype(dt)
             rel = 1e-9 if dt != "float32" else 1e-4
-            cmp("gammafit", dict(x=rr.tolist(), dtype=dt), lambda: stats.gammafit(rr), lambda: I["gammafit"](rr), rel=rel)
-            cmp("gammastd", dict(x=rr.tolist(), dtype=dt), lambda: stats.gammastd(rr, -9999.0, 0, n), lambda: I["gammastd"](rr, -9999.0, 0, n), rel=max(rel, 1e-7))
             c3 = rr.reshape(1, 1, n)
-            cmp("gammastd_yxt", dict(x=rr.tolist(), dtype=dt), lambda: stats.gammastd_yxt(c3, -9999.0, 0, n), lambda: I["gammastd_yxt"](c3, -9999.0, 0, n), kind="band")
+            if len(set(v for v in rr.tolist() if v > 0)) >= 2:
+                cmp("gammafit", dict(x=rr.tolist(), dtype=dt), lambda: stats.gammafit(rr), lambda: I["gammafit"](rr), rel=rel)
+                cmp("gammastd", dict(x=rr.tolist(), dtype=dt), lambda: stats.gammastd(rr, -9999.0, 0, n), lambda: I["gammastd"](rr, -9999.0, 0, n), rel=max(rel, 1e-7))
+                cmp("gammastd_yxt", dict(x=rr.tolist(), dtype=dt), lambda: stats.gammastd_yxt(c3, -9999.0, 0, n), lambda: I["gammastd_yxt"](c3, -9999.0, 0, n), kind="band")
+            else:
+                # fewer than two distinct positive values: s = log(mean) - mean(log) is 0 mathematically and the test `s == 0` is a knife-edge
+                # under float32 logarithms (compiled) vs float64 logarithms (interpreter); outside the claim of C07 as well
+                ctx.count("gamma fit on < 2 distinct positive values (s == 0 knife-edge): skipped")
             cmp("mk_score", dict(x=rr.tolist(), dtype=dt), lambda: stats.mk_score(rr), lambda: I["mk_score"](rr))
             cmp("mk_variance_s", dict(x=rr.tolist(), dtype=dt), lambda: stats.mk_variance_s(rr), lambda: I["mk_variance_s"](rr))
             cmp("mk_sens_slope", dict(x=rr.tolist(), dtype=dt), lambda: stats.mk_sens_slope(rr), lambda: I["mk_sens_slope"](rr), rel=rel)
